@@ -813,6 +813,17 @@ module Z =
   let of_N = function
   | N0 -> Z0
   | Npos p0 -> Zpos p0
+
+  (** val odd : z -> bool **)
+
+  let odd = function
+  | Z0 -> false
+  | Zpos p0 -> (match p0 with
+                | XO _ -> false
+                | _ -> true)
+  | Zneg p0 -> (match p0 with
+                | XO _ -> false
+                | _ -> true)
  end
 
 (** val upd : nat -> 'a1 -> 'a1 list -> 'a1 list **)
@@ -4235,148 +4246,157 @@ let batch_callback tid vals row =
                       (updf ci (upd row (snd cv))) t1)))
             | None -> fail ENil)))))
 
-(** val w_new_entities : nat -> unit mW **)
+(** val w_new_entities : nat -> bool -> unit mW **)
 
-let w_new_entities count =
+let w_new_entities count fn =
   bind check_locked (fun _ ->
     bind (new_entities count [] []) (fun r ->
       let (tid, start) = r in
-      bind lockM (fun l ->
-        bind (forM_ (seq start count) (fun i -> batch_callback tid [] i))
-          (fun _ ->
-          bind get (fun s ->
+      bind get (fun s0 ->
+        let has_obs0 = has_obs s0 evCreateEntity in
+        let should_lock = (||) has_obs0 fn in
+        bind (if should_lock then lockM else ret O) (fun l ->
+          bind
+            (whenM fn
+              (forM_ (seq start count) (fun i -> batch_callback tid [] i)))
+            (fun _ ->
             bind
-              (whenM (has_obs s evCreateEntity)
+              (whenM has_obs0
                 (bind (arch_mask_of_table tid) (fun m0 ->
                   bind (rows_of tid start count) (fun es ->
                     fire_rows (fun e eo -> fire_create_entity e m0 eo) es true))))
-              (fun _ -> unlockM l))))))
+              (fun _ -> whenM should_lock (unlockM l)))))))
 
 (** val w_new_batch :
-    nat -> nat list -> rel list -> (nat * z) list -> unit mW **)
+    nat -> nat list -> rel list -> (nat * z) list -> bool -> unit mW **)
 
-let w_new_batch count ids rels vals =
+let w_new_batch count ids rels vals fn =
   bind check_locked (fun _ ->
     bind (to_relations (mk_of_list ids) rels) (fun _ ->
       bind (new_entities count ids rels) (fun r ->
         let (tid, start) = r in
-        bind lockM (fun l ->
-          bind (forM_ (seq start count) (fun i -> batch_callback tid vals i))
-            (fun _ ->
-            bind get (fun s ->
+        bind get (fun s0 ->
+          let has_create = has_obs s0 evCreateEntity in
+          let has_rel = (&&) (negb (is_nil rels)) (has_obs s0 evAddRelations)
+          in
+          let should_lock = (||) ((||) has_create has_rel) fn in
+          bind (if should_lock then lockM else ret O) (fun l ->
+            bind
+              (whenM fn
+                (forM_ (seq start count) (fun i -> batch_callback tid vals i)))
+              (fun _ ->
               bind (rows_of tid start count) (fun es ->
                 bind
-                  (whenM (has_obs s evCreateEntity)
+                  (whenM has_create
                     (fire_rows (fun e eo ->
                       fire_create_entity e (mk_of_list ids) eo) es true))
                   (fun _ ->
-                  bind get (fun s0 ->
-                    bind
-                      (whenM
-                        ((&&) (negb (is_nil rels))
-                          (has_obs s0 evAddRelations))
-                        (fire_rows (fun e eo ->
-                          fire_create_entity_rel e (mk_of_list ids) eo) es
-                          true)) (fun _ -> unlockM l))))))))))
+                  bind
+                    (whenM has_rel
+                      (fire_rows (fun e eo ->
+                        fire_create_entity_rel e (mk_of_list ids) eo) es true))
+                    (fun _ -> whenM should_lock (unlockM l))))))))))
 
-(** val w_remove_entities : nat -> rel list -> unit mW **)
+(** val w_remove_entities : nat -> rel list -> bool -> unit mW **)
 
-let w_remove_entities fi rels =
+let w_remove_entities fi rels fn =
   bind check_locked (fun _ ->
-    bind lockM (fun l ->
-      bind (get_batch_tables fi rels) (fun tables ->
-        bind
-          (forM_ tables (fun tid ->
-            bind (getT tid) (fun t ->
-              forM_ (seq O t.t_len) (fun i -> batch_callback tid [] i))))
-          (fun _ ->
-          bind get (fun s ->
+    bind get (fun s0 ->
+      let has_e = has_obs s0 evRemoveEntity in
+      let has_r = has_obs s0 evRemoveRelations in
+      let should_lock = (||) ((||) has_e has_r) fn in
+      bind (if should_lock then lockM else ret O) (fun l ->
+        bind (get_batch_tables fi rels) (fun tables ->
+          bind
+            (whenM fn
+              (forM_ tables (fun tid ->
+                bind (getT tid) (fun t ->
+                  forM_ (seq O t.t_len) (fun i -> batch_callback tid [] i)))))
+            (fun _ ->
             bind
-              (whenM (has_obs s evRemoveEntity)
+              (whenM has_e
                 (forM_ tables (fun tid ->
                   bind (arch_mask_of_table tid) (fun m0 ->
                     bind (getT tid) (fun t ->
                       fire_rows (fun e eo -> fire_remove_entity e m0 eo)
                         (firstn t.t_len t.t_ents) true))))) (fun _ ->
-              bind get (fun s0 ->
+              bind
+                (whenM has_r
+                  (forM_ tables (fun tid ->
+                    bind (getT tid) (fun t ->
+                      whenM (tbl_has_rels t)
+                        (bind (arch_mask_of_table tid) (fun m0 ->
+                          fire_rows (fun e eo ->
+                            fire_remove_entity_rel e m0 eo)
+                            (firstn t.t_len t.t_ents) true)))))) (fun _ ->
                 bind
-                  (whenM (has_obs s0 evRemoveRelations)
-                    (forM_ tables (fun tid ->
-                      bind (getT tid) (fun t ->
-                        whenM (tbl_has_rels t)
-                          (bind (arch_mask_of_table tid) (fun m0 ->
-                            fire_rows (fun e eo ->
-                              fire_remove_entity_rel e m0 eo)
-                              (firstn t.t_len t.t_ents) true)))))) (fun _ ->
+                  (let rec go tabs acc =
+                     match tabs with
+                     | [] -> ret acc
+                     | tid :: rest ->
+                       bind (getT tid) (fun t ->
+                         bind
+                           (let rec rows es acc0 =
+                              match es with
+                              | [] -> ret acc0
+                              | e :: more ->
+                                bind get (fun s ->
+                                  let acc1 =
+                                    if nth (fst e) s.w_istarget false
+                                    then app acc0 (e :: [])
+                                    else acc0
+                                  in
+                                  bind
+                                    (modify (fun s1 ->
+                                      set (fun w0 -> w0.w_index) (fun f ->
+                                        let l0 = fun r -> f r.w_index in
+                                        (fun x -> { w_cfg = x.w_cfg; w_reg =
+                                        x.w_reg; w_pool = x.w_pool; w_index =
+                                        (l0 x); w_istarget = x.w_istarget;
+                                        w_archs = x.w_archs; w_tables =
+                                        x.w_tables; w_relarchs =
+                                        x.w_relarchs; w_compindex =
+                                        x.w_compindex; w_archcount =
+                                        x.w_archcount; w_version =
+                                        x.w_version; w_cheap = x.w_cheap;
+                                        w_centries = x.w_centries; w_cpool =
+                                        x.w_cpool; w_lock = x.w_lock; w_obs =
+                                        x.w_obs; w_olists = x.w_olists;
+                                        w_oagg = x.w_oagg; w_opool =
+                                        x.w_opool; w_ototal = x.w_ototal;
+                                        w_omax = x.w_omax; w_filters =
+                                        x.w_filters; w_queries = x.w_queries;
+                                        w_res = x.w_res; w_issued =
+                                        x.w_issued; w_log = x.w_log }))
+                                        (updf (fst e) (fun ix -> (None,
+                                          (snd ix)))) s1)) (fun _ ->
+                                    bind (pool_recycleM e) (fun _ ->
+                                      rows more acc1)))
+                            in rows (firstn t.t_len t.t_ents) acc)
+                           (fun acc' ->
+                           bind (modT tid tbl_reset) (fun _ -> go rest acc')))
+                   in go tables []) (fun cleanup ->
                   bind
-                    (let rec go tabs acc =
-                       match tabs with
-                       | [] -> ret acc
-                       | tid :: rest ->
-                         bind (getT tid) (fun t ->
-                           bind
-                             (let rec rows es acc0 =
-                                match es with
-                                | [] -> ret acc0
-                                | e :: more ->
-                                  bind get (fun s1 ->
-                                    let acc1 =
-                                      if nth (fst e) s1.w_istarget false
-                                      then app acc0 (e :: [])
-                                      else acc0
-                                    in
-                                    bind
-                                      (modify (fun s2 ->
-                                        set (fun w0 -> w0.w_index) (fun f ->
-                                          let l0 = fun r -> f r.w_index in
-                                          (fun x -> { w_cfg = x.w_cfg;
-                                          w_reg = x.w_reg; w_pool = x.w_pool;
-                                          w_index = (l0 x); w_istarget =
-                                          x.w_istarget; w_archs = x.w_archs;
-                                          w_tables = x.w_tables; w_relarchs =
-                                          x.w_relarchs; w_compindex =
-                                          x.w_compindex; w_archcount =
-                                          x.w_archcount; w_version =
-                                          x.w_version; w_cheap = x.w_cheap;
-                                          w_centries = x.w_centries;
-                                          w_cpool = x.w_cpool; w_lock =
-                                          x.w_lock; w_obs = x.w_obs;
-                                          w_olists = x.w_olists; w_oagg =
-                                          x.w_oagg; w_opool = x.w_opool;
-                                          w_ototal = x.w_ototal; w_omax =
-                                          x.w_omax; w_filters = x.w_filters;
-                                          w_queries = x.w_queries; w_res =
-                                          x.w_res; w_issued = x.w_issued;
-                                          w_log = x.w_log }))
-                                          (updf (fst e) (fun ix -> (None,
-                                            (snd ix)))) s2)) (fun _ ->
-                                      bind (pool_recycleM e) (fun _ ->
-                                        rows more acc1)))
-                              in rows (firstn t.t_len t.t_ents) acc)
-                             (fun acc' ->
-                             bind (modT tid tbl_reset) (fun _ -> go rest acc')))
-                     in go tables []) (fun cleanup ->
-                    bind
-                      (forM_ cleanup (fun e ->
-                        bind (cleanup_archetypes e) (fun _ ->
-                          modify (fun s1 ->
-                            set (fun w0 -> w0.w_istarget) (fun f ->
-                              let l0 = fun r -> f r.w_istarget in
-                              (fun x -> { w_cfg = x.w_cfg; w_reg = x.w_reg;
-                              w_pool = x.w_pool; w_index = x.w_index;
-                              w_istarget = (l0 x); w_archs = x.w_archs;
-                              w_tables = x.w_tables; w_relarchs =
-                              x.w_relarchs; w_compindex = x.w_compindex;
-                              w_archcount = x.w_archcount; w_version =
-                              x.w_version; w_cheap = x.w_cheap; w_centries =
-                              x.w_centries; w_cpool = x.w_cpool; w_lock =
-                              x.w_lock; w_obs = x.w_obs; w_olists =
-                              x.w_olists; w_oagg = x.w_oagg; w_opool =
-                              x.w_opool; w_ototal = x.w_ototal; w_omax =
-                              x.w_omax; w_filters = x.w_filters; w_queries =
-                              x.w_queries; w_res = x.w_res; w_issued =
-                              x.w_issued; w_log = x.w_log }))
-                              (upd (fst e) false) s1)))) (fun _ -> unlockM l))))))))))
+                    (forM_ cleanup (fun e ->
+                      bind (cleanup_archetypes e) (fun _ ->
+                        modify (fun s ->
+                          set (fun w0 -> w0.w_istarget) (fun f ->
+                            let l0 = fun r -> f r.w_istarget in
+                            (fun x -> { w_cfg = x.w_cfg; w_reg = x.w_reg;
+                            w_pool = x.w_pool; w_index = x.w_index;
+                            w_istarget = (l0 x); w_archs = x.w_archs;
+                            w_tables = x.w_tables; w_relarchs = x.w_relarchs;
+                            w_compindex = x.w_compindex; w_archcount =
+                            x.w_archcount; w_version = x.w_version; w_cheap =
+                            x.w_cheap; w_centries = x.w_centries; w_cpool =
+                            x.w_cpool; w_lock = x.w_lock; w_obs = x.w_obs;
+                            w_olists = x.w_olists; w_oagg = x.w_oagg;
+                            w_opool = x.w_opool; w_ototal = x.w_ototal;
+                            w_omax = x.w_omax; w_filters = x.w_filters;
+                            w_queries = x.w_queries; w_res = x.w_res;
+                            w_issued = x.w_issued; w_log = x.w_log }))
+                            (upd (fst e) false) s)))) (fun _ ->
+                    whenM should_lock (unlockM l))))))))))
 
 (** val exchange_table : nat -> nat -> rel list -> (nat * nat) mW **)
 
@@ -5192,7 +5212,7 @@ type op =
 | ONewEntity
 | OUNew of nat list
 | OUNewRel of nat list * hrel list
-| ONewEntities of nat
+| ONewEntities of nat * bool
 | OCopy of z
 | OUAdd of z * nat list
 | OUAddRel of z * nat list * hrel list
@@ -5201,7 +5221,7 @@ type op =
 | OWrite of z * nat * z
 | OUSetRel of z * hrel list
 | ORemoveEntity of z
-| ORemoveEntities of nat * hrel list
+| ORemoveEntities of nat * hrel list * bool
 | OReset
 | OShrink of bool
 | OFilterNew of bool * nat list * nat list * bool * hrel list
@@ -5219,7 +5239,7 @@ type op =
 | OObsUnregister of nat
 | OEmit of nat * z * nat list
 | OMapSet of z * nat * z
-| ONewBatch of nat * nat list * hrel list * (nat * z) list
+| ONewBatch of nat * nat list * hrel list * (nat * z) list * bool
 | OExchangeBatch of nat * hrel list * nat list * nat list * hrel list
    * (nat * z) list
 | OSetRelBatch of nat * hrel list * nat list * hrel list
@@ -5292,6 +5312,12 @@ let prels =
 
 let pvals =
   plist (ppair pnat pZ)
+
+(** val pflag : bool p **)
+
+let pflag = function
+| [] -> Some (false, [])
+| x :: t -> Some ((Z.odd x), t)
 
 (** val decode_op : z list -> op option **)
 
@@ -5410,7 +5436,9 @@ let decode_op = function
              | XH ->
                pbind pZ (fun h ->
                  pbind pnats (fun ids -> pret (OUAdd (h, ids)))) args)
-          | XH -> pbind pnat (fun n0 -> pret (ONewEntities n0)) args)
+          | XH ->
+            pbind pnat (fun n0 ->
+              pbind pflag (fun nf -> pret (ONewEntities (n0, nf)))) args)
        | XO p1 ->
          (match p1 with
           | XI p2 ->
@@ -5424,7 +5452,9 @@ let decode_op = function
                        pbind pnats (fun ids ->
                          pbind prels (fun rels ->
                            pbind pvals (fun vals ->
-                             pret (ONewBatch (n0, ids, rels, vals)))))) args
+                             pbind pflag (fun nf ->
+                               pret (ONewBatch (n0, ids, rels, vals, nf)))))))
+                       args
                    | _ -> None)
                 | XO p4 ->
                   (match p4 with
@@ -5484,8 +5514,9 @@ let decode_op = function
                    | XH -> pbind pnat (fun q -> pret (OQueryNext q)) args)
                 | XH ->
                   pbind pnat (fun f ->
-                    pbind prels (fun rels -> pret (ORemoveEntities (f, rels))))
-                    args)
+                    pbind prels (fun rels ->
+                      pbind pflag (fun nf ->
+                        pret (ORemoveEntities (f, rels, nf))))) args)
              | XO p3 ->
                (match p3 with
                 | XI p4 ->
@@ -5722,7 +5753,8 @@ let step_op debug = function
         bind
           (whenM (negb (is_nil rels)) (fire_create_entity_rel_if_has e m0))
           (fun _ -> ret (zent e)))))
-| ONewEntities n0 -> bind (w_new_entities n0) (fun _ -> ret [])
+| ONewEntities (n0, nofn) ->
+  bind (w_new_entities n0 (negb nofn)) (fun _ -> ret [])
 | OCopy h ->
   bind (resolveH h) (fun e ->
     bind (w_copy_entity e) (fun ne -> ret (zent ne)))
@@ -5776,10 +5808,10 @@ let step_op debug = function
   bind (resolveH h) (fun e ->
     bind check_locked (fun _ ->
       bind (storage_remove_entity e) (fun _ -> ret [])))
-| ORemoveEntities (f, hbrels) ->
+| ORemoveEntities (f, hbrels, nofn) ->
   bind (resolveR hbrels) (fun brels ->
     bind (batch_rels f brels) (fun br ->
-      bind (w_remove_entities f br) (fun _ -> ret [])))
+      bind (w_remove_entities f br (negb nofn)) (fun _ -> ret [])))
 | OReset -> bind w_reset (fun _ -> ret [])
 | OShrink stop0 -> bind (w_shrink stop0) (fun b -> ret ((zb b) :: []))
 | OFilterNew (unsafe, ids, without, excl, hrels) ->
@@ -5903,9 +5935,9 @@ let step_op debug = function
                 bind
                   (fire_set evSetComponents e (mk_of_list (c :: [])) m0 true)
                   (fun _ -> ret ())))) (fun _ -> ret [])))))
-| ONewBatch (n0, ids, hrels, vals) ->
+| ONewBatch (n0, ids, hrels, vals, nofn) ->
   bind (resolveR hrels) (fun rels ->
-    bind (w_new_batch n0 ids rels vals) (fun _ -> ret []))
+    bind (w_new_batch n0 ids rels vals (negb nofn)) (fun _ -> ret []))
 | OExchangeBatch (f, hbrels, add0, rem, hrels, vals) ->
   bind (resolveR hbrels) (fun brels ->
     bind (resolveR hrels) (fun rels ->
@@ -5958,8 +5990,8 @@ let step_op debug = function
 (** val issues_from_log : op -> bool **)
 
 let issues_from_log = function
-| ONewEntities _ -> true
-| ONewBatch (_, _, _, _) -> true
+| ONewEntities (_, _) -> true
+| ONewBatch (_, _, _, _, _) -> true
 | _ -> false
 
 (** val returns_entity : op -> bool **)
